@@ -185,6 +185,10 @@ class TaskScheduler(object):
 
     def _continue_with_task(self, task):
         task._resume_contexts()
+        if task.is_computed():
+            # A context failed to resume: the error has become the task's outcome and
+            # its generator is closed, so there is nothing left to continue.
+            return 0
         old_task = self.active_task
         self.active_task = task
 
